@@ -5,10 +5,10 @@
 // `arrow_flattened_option_group` FAILS ("all columns in a record batch must have the specified row count"; with the
 // optional group declared BEFORE `x` the chain thread panics "Draw name mismatch: expected e1, got x").
 // With finding_positional_zip.patch both pass.
-//! Read-back test for the Arrow backend (public API only): every value recorded through `Sampler` with
-//! `ArrowConfig` is read back from the record batches and compared with what `HashMapConfig` returns for the
-//! same model, settings and seed (C14: "all backends agree with each other").
-#![cfg(feature = "arrow")]
+// Read-back test for the Arrow backend (public API only): every value recorded through `Sampler` with
+// `ArrowConfig` is read back from the record batches and compared with what `HashMapConfig` returns for the
+// same model, settings and seed (C14: "all backends agree with each other").
+
 
 use std::collections::HashMap;
 use std::time::Duration;
@@ -187,8 +187,7 @@ fn hm_flat(v: &HashMapValue) -> Vec<String> {
     }
 }
 
-#[test]
-fn arrow_values_read_back() {
+pub fn arrow_values_read_back() {
     // reference: the HashMap backend (keeps warmup and sampling draws, in recording order, absent values skipped)
     let sampler = Sampler::new(model(), settings(), HashMapConfig::new(), 1, None).unwrap();
     let hm = match sampler.wait_timeout(Duration::from_secs(60)) {
@@ -328,8 +327,7 @@ impl Model for MOpt {
     }
 }
 
-#[test]
-fn arrow_flattened_option_group() {
+pub fn arrow_flattened_option_group() {
     let mk = || MOpt { math: CpuMath::new(LogpOpt { n: N }) };
     let sampler = Sampler::new(mk(), settings(), HashMapConfig::new(), 1, None).unwrap();
     let hm = match sampler.wait_timeout(Duration::from_secs(60)) {
